@@ -10,6 +10,7 @@ tables are expanded, and the (content, hash) pair of the target of EVERY transit
 import contextlib
 import copy
 import io
+import itertools
 
 from .. import alphabets as A
 from ..core import Violation
@@ -215,6 +216,67 @@ def shared_dict_cases(ctx):
     return n
 
 
+VALUE_MENU = [
+    [1, 2, 3], [3, 1, 2], [2, 1, 3], [1, 2], [1, 2, 3, 3], ["b", "a"], ["a", "b"], [[1, 2], 3], [[2, 1], 3], [1, [2, 3]], [3, [1, 2]],
+    {"a": [1, 2]}, {"a": [2, 1]}, {"a": 1, "b": 2}, {"a": 2, "b": 1}, [{"a": 1}, {"b": 2}], [{"b": 2}, {"a": 1}],
+    "1", 1, ["1"], [1], "ab", "ba", [], {}, "",
+]
+
+
+def metadata_value_cases(ctx):
+    """difference direction over a menu of structured metadata values: two hypergraphs that differ ONLY in one metadata value (of a
+    node, of a hyperedge, or of the hypergraph) - every unordered pair of distinct menu values, e.g. the same items of a list in
+    another order, another nesting, '1' against 1 - must hash differently; the same value built twice must hash equally"""
+    import copy
+
+    import hypergraphx as hx
+    from hypergraphx.readwrite.hashing import hash_hypergraph
+
+    recs = {
+        "Hypergraph": (hx.Hypergraph, [((1, 2),), ((2, 3),)]),
+        "DirectedHypergraph": (hx.DirectedHypergraph, [(((1,), (2,)),), (((2,), (3,)),)]),
+        "TemporalHypergraph": (hx.TemporalHypergraph, [((1, 2), 0), ((2, 3), 1)]),
+        "MultiplexHypergraph": (hx.MultiplexHypergraph, [((1, 2), "a"), ((2, 3), "b")]),
+    }
+    n = 0
+    for name, (cls, edges) in recs.items():
+        for where in ("node", "edge", "second-edge", "hypergraph"):
+            def mk(v):
+                v = copy.deepcopy(v)
+                h = cls()
+                for x in (1, 2, 3):
+                    h.add_node(x, metadata={"route": v} if (where == "node" and x == 2) else {"route": 0})
+                h.add_edge(*edges[0], metadata={"route": v} if where == "edge" else {"route": 0})
+                h.add_edge(*edges[1], metadata={"route": v} if where == "second-edge" else {"route": 0})
+                if where == "hypergraph":
+                    h.set_attr_to_hypergraph_metadata("route", v)
+                return h
+            if where == "hypergraph" and not hasattr(cls, "set_attr_to_hypergraph_metadata"):
+                continue
+            hashes = []
+            for v in VALUE_MENU:
+                n += 1
+                try:
+                    a, b = hash_hypergraph(mk(v)), hash_hypergraph(mk(v))
+                except Exception as e:
+                    ctx.add_violation(Violation("%s/hash-raises/metadata-value" % name, "hash_hypergraph raised %s: %s for %s metadata value %r" % (type(e).__name__, e, where, v),
+                                                {"kind": "metadata-value", "type": name, "where": where, "value": repr(v)}, size=4))
+                    hashes.append(None)
+                    continue
+                if a != b:
+                    ctx.add_violation(Violation("%s/equal-content-different-hash/metadata-value" % name, "%s metadata value %r built twice hashes differently" % (where, v),
+                                                {"kind": "metadata-value", "type": name, "where": where, "value": repr(v)}, size=4))
+                hashes.append(a)
+            for i, j in itertools.combinations(range(len(VALUE_MENU)), 2):
+                n += 1
+                if hashes[i] is not None and hashes[i] == hashes[j]:
+                    ctx.add_violation(Violation("%s/different-content-equal-hash/metadata-value" % name,
+                                                "hypergraphs differing only in one %s metadata value (%r against %r) have the same hash" % (where, VALUE_MENU[i], VALUE_MENU[j]),
+                                                {"kind": "metadata-value", "type": name, "where": where, "values": [repr(VALUE_MENU[i]), repr(VALUE_MENU[j])]}, size=4))
+    ctx.part("metadata-value-menu", comparisons=n, values=len(VALUE_MENU))
+    return n
+
+
 def run(ctx):
     table, byhash = {}, {}
     tot_c = tot_t = tot_e = 0
@@ -232,6 +294,7 @@ def run(ctx):
         tot_t += t
         tot_e += e
     tot_e += shared_dict_cases(ctx)
+    tot_e += metadata_value_cases(ctx)
     groups_multi = sum(1 for c, hs in table.items() if len(hs) == 1)
     ctx.require(len(table) > 500, "too few distinct contents reached (%d)" % len(table))
     ctx.require(tot_t > 20 * len(table) or ctx.violations, "too few histories per content")
